@@ -58,9 +58,9 @@ def _is_getter(name):
     return False
 
 
-def _pure(e, stored_names, stored_chains, params, after=0, own=None):
-    """side-effect free and reading nothing this function assigns at or after line `after`
-    (`own`: the name being defined - its own single store does not count)."""
+def _pure(e, stored_names, stored_chains, params, after=0, own=None, until=10 ** 9):
+    """side-effect free and reading nothing this function assigns between line `after` and line `until`
+    (the last use), both included (`own`: the name being defined - its own single store does not count)."""
     for n in ast.walk(e):
         if isinstance(n, (ast.Yield, ast.YieldFrom, ast.Await, ast.Lambda, ast.NamedExpr, ast.Starred,
                           ast.ListComp, ast.SetComp, ast.DictComp, ast.GeneratorExp, ast.Dict, ast.JoinedStr)):
@@ -74,13 +74,14 @@ def _pure(e, stored_names, stored_chains, params, after=0, own=None):
                 continue
             return False
         if isinstance(n, ast.Name) and isinstance(n.ctx, ast.Load) and n.id != own:
-            if any(ln >= after for ln in stored_names.get(n.id, ())):
+            if any(after <= ln <= until for ln in stored_names.get(n.id, ())):
                 return False
         if isinstance(n, ast.Attribute):
             c = _chain(n)
             if c is not None:
                 for sc, lns in stored_chains.items():
-                    if (c == sc or c.startswith(sc + ".") or sc.startswith(c + ".")) and any(ln >= after for ln in lns):
+                    if (c == sc or c.startswith(sc + ".") or sc.startswith(c + ".")) \
+                            and any(after <= ln <= until for ln in lns):
                         return False
     return True
 
@@ -140,6 +141,19 @@ def expand_locals(fn, keep=()):
         for h in getattr(node, "handlers", []) or []:
             yield h.body
 
+    last_use = {}
+    in_loop_use = set()
+    for n in _own_walk(fn):
+        if isinstance(n, ast.Name) and isinstance(n.ctx, ast.Load):
+            last_use[n.id] = max(last_use.get(n.id, 0), getattr(n, "end_lineno", None) or getattr(n, "lineno", 0))
+    for lp in _own_walk(fn):
+        if isinstance(lp, (ast.For, ast.While)):
+            # a use inside a loop may run again after anything else in that loop
+            end = getattr(lp, "end_lineno", None) or 10 ** 9
+            for n in ast.walk(lp):
+                if isinstance(n, ast.Name) and isinstance(n.ctx, ast.Load):
+                    last_use[n.id] = max(last_use.get(n.id, 0), end)
+
     changed = 0
 
     def process(block):
@@ -152,8 +166,8 @@ def expand_locals(fn, keep=()):
                     and st.targets[0].id not in params \
                     and st.targets[0].id not in keep \
                     and not isinstance(st.value, ast.Constant) \
-                    and _pure(st.value, stored_names, stored_chains, params, after=st.lineno + 1,
-                              own=st.targets[0].id):
+                    and _pure(st.value, stored_names, stored_chains, params, after=st.lineno,
+                              own=st.targets[0].id, until=last_use.get(st.targets[0].id, 10 ** 9)):
                 name = st.targets[0].id
                 sub = _Subst({name: st.value})
                 for later in block[i + 1:]:
@@ -195,20 +209,32 @@ def _inlinable(fdef):
         return False
     gen = _is_gen(fdef)
     for n in ast.walk(fdef):
-        if isinstance(n, (ast.While, ast.With, ast.Lambda, ast.Global, ast.Nonlocal, ast.YieldFrom)) \
+        if isinstance(n, (ast.With, ast.Lambda, ast.Global, ast.Nonlocal, ast.YieldFrom)) \
                 or (isinstance(n, (ast.FunctionDef, ast.ClassDef)) and n is not fdef):
-            return False
-        if isinstance(n, ast.For) and not gen:
             return False
         if isinstance(n, ast.Return) and gen and n.value is not None:
             return False
     rets = [n for n in ast.walk(fdef) if isinstance(n, ast.Return)]
-    if len(rets) > 4:
+    if len(rets) > 20:
         return False
     # returns inside try blocks or loops cannot be re-threaded
     for n in ast.walk(fdef):
-        if isinstance(n, (ast.Try, ast.For)) and any(isinstance(x, ast.Return) for x in ast.walk(n)):
+        if isinstance(n, (ast.Try, ast.For, ast.While)) and any(isinstance(x, ast.Return) for x in ast.walk(n)):
+            if n is body[-1] and _tail_try(n):
+                continue        # a try that ends the helper: returning from it is falling off its end
             return False
+    return True
+
+
+def _tail_try(n):
+    """a try statement without else/finally whose returns are not nested in loops or inner tries"""
+    if not isinstance(n, ast.Try) or n.orelse or n.finalbody:
+        return False
+    for part in [n.body] + [h.body for h in n.handlers]:
+        for s in part:
+            for x in ast.walk(s):
+                if isinstance(x, (ast.For, ast.While, ast.Try)) and any(isinstance(y, ast.Return) for y in ast.walk(x)):
+                    return False
     return True
 
 
@@ -238,6 +264,11 @@ def _thread_returns(stmts, emit):
             new = ast.If(test=st.test, body=body or [ast.Pass()], orelse=orelse)
             out.append(ast.copy_location(new, st))
             return out
+        if isinstance(st, ast.Try) and i == len(stmts) - 1 and _tail_try(st) \
+                and any(isinstance(x, ast.Return) for x in ast.walk(st)):
+            st.body = _thread_returns(st.body, emit) or [ast.copy_location(ast.Pass(), st)]
+            for h in st.handlers:
+                h.body = _thread_returns(h.body, emit) or [ast.copy_location(ast.Pass(), st)]
         out.append(st)
     return out
 
@@ -298,6 +329,61 @@ def inline_new_helpers(tree, module_name, functions_of_class):
             return st.iter
         return None
 
+    def consuming(st):
+        """`for r in <call>: if r in (0, 1): yield r / else: break` - the package's idiom for running a
+        generator helper whose last yielded value is its result."""
+        if not (isinstance(st, ast.For) and isinstance(st.iter, ast.Call) and isinstance(st.target, ast.Name)
+                and not st.orelse and len(st.body) == 1 and isinstance(st.body[0], ast.If)):
+            return None
+        f = st.body[0]
+        t = f.test
+        if not (isinstance(t, ast.Compare) and len(t.ops) == 1 and isinstance(t.ops[0], ast.In)
+                and isinstance(t.left, ast.Name) and t.left.id == st.target.id
+                and isinstance(t.comparators[0], (ast.Tuple, ast.List))
+                and [getattr(e, "value", None) for e in t.comparators[0].elts] == [0, 1]):
+            return None
+        if not (len(f.body) == 1 and isinstance(f.body[0], ast.Expr) and isinstance(f.body[0].value, ast.Yield)
+                and isinstance(f.body[0].value.value, ast.Name) and f.body[0].value.value.id == st.target.id
+                and len(f.orelse) == 1 and isinstance(f.orelse[0], ast.Break)):
+            return None
+        return st.iter
+
+    def value_yields_to_returns(stmts, loopvars=frozenset(), nested=False):
+        """in a copy of a generator helper's body: `yield <value>` (not the forwarding of a loop variable)
+        ends the helper as far as a consuming caller is concerned -> Return(value).  None when such a
+        yield sits inside a loop or try (cannot be re-threaded)."""
+        out = []
+        for s in stmts:
+            if isinstance(s, ast.Expr) and isinstance(s.value, ast.Yield):
+                v = s.value.value
+                if isinstance(v, ast.Name) and v.id in loopvars:
+                    out.append(s)
+                    continue
+                if nested:
+                    return None
+                out.append(ast.copy_location(ast.Return(value=v), s))
+                continue
+            if isinstance(s, ast.If):
+                b = value_yields_to_returns(s.body, loopvars, nested)
+                o = value_yields_to_returns(s.orelse, loopvars, nested)
+                if b is None or o is None:
+                    return None
+                s.body, s.orelse = b or [ast.copy_location(ast.Pass(), s)], o
+            elif isinstance(s, ast.For):
+                lv = loopvars | ({s.target.id} if isinstance(s.target, ast.Name) else frozenset())
+                b = value_yields_to_returns(s.body, lv, True)
+                if b is None:
+                    return None
+                s.body = b
+            elif isinstance(s, ast.Try):
+                for part in [s.body, s.orelse, s.finalbody] + [h.body for h in s.handlers]:
+                    r = value_yields_to_returns(part, loopvars, True)
+                    if r is None:
+                        return None
+                    part[:] = r
+            out.append(s)
+        return out
+
     def rewrite_block(block, cls_name, depth=0, used=frozenset()):
         nonlocal count
         i = 0
@@ -314,30 +400,51 @@ def inline_new_helpers(tree, module_name, functions_of_class):
                 call, tgt = st.value.value, "yield"
             elif forwarding(st) is not None:
                 call, tgt = forwarding(st), "forward"
+            elif consuming(st) is not None:
+                call, tgt = consuming(st), "consume"
             done = False
             if call is not None and not call.keywords:
                 t = target(call, cls_name)
                 if t is not None:
                     d, skip, owner = t
                     names = [a.arg for a in d.args.args][skip:]
-                    # an argument with possible effects may only replace a parameter that is read once
-                    uses = {}
-                    for n_ in _own_walk(d):
-                        if isinstance(n_, ast.Name) and isinstance(n_.ctx, ast.Load):
-                            uses[n_.id] = uses.get(n_.id, 0) + 1
-                    if len(names) == len(call.args) and not all(
-                            _arg_ok(a) or uses.get(nm_, 0) == 1 for nm_, a in zip(names, call.args)):
-                        t = None
+                    # (an argument that is not a plain name / constant / untouched attribute chain is
+                    # evaluated once, up front, into a local named after the parameter - see below)
                 if t is not None:
                     gen = _is_gen(d)
                     if d.name.startswith("_") and not d.name.startswith("__") and qname(owner, d.name) not in base \
                             and _inlinable(d) and len(names) == len(call.args) and depth < 3 \
-                            and gen == (tgt == "forward"):
+                            and gen == (tgt in ("forward", "consume")):
                         body = [copy.deepcopy(s) for s in d.body
                                 if not (isinstance(s, ast.Expr) and isinstance(s.value, ast.Constant))]
+                        consume_mode = tgt == "consume"
+                        if consume_mode:
+                            body = value_yields_to_returns(body)
+                            if body is None:
+                                i += 1
+                                continue
+                            tgt = ast.Name(id=st.target.id, ctx=ast.Store())
                         mapping = dict(zip(names, call.args))
                         _INLINE_SEQ[0] += 1
                         pre = "_%s%d_" % (d.name.strip("_"), _INLINE_SEQ[0])
+                        # evaluation order: anything but a name, a constant or an attribute chain the helper
+                        # does not store to is computed before the helper's first statement
+                        stored_chains = {_chain(n) for s in body for n in ast.walk(s)
+                                         if isinstance(n, ast.Attribute) and isinstance(n.ctx, ast.Store)}
+                        early = []
+                        for nm_ in names:
+                            a_ = mapping[nm_]
+                            if isinstance(a_, (ast.Name, ast.Constant)):
+                                continue
+                            ch_ = _chain(a_) if isinstance(a_, ast.Attribute) else None
+                            if ch_ is not None and not any(sc and (ch_ == sc or ch_.startswith(sc + ".")) for sc in stored_chains):
+                                continue
+                            if _arg_ok(a_) and not isinstance(a_, ast.Attribute) and not stored_chains \
+                                    and not any(isinstance(n, ast.Call) for s in body for n in ast.walk(s)):
+                                continue        # a pure expression and a helper without effects
+                            lname = nm_ if nm_ not in used else pre + nm_
+                            early.append(ast.Assign(targets=[ast.Name(id=lname, ctx=ast.Store())], value=a_))
+                            mapping[nm_] = ast.Name(id=lname, ctx=ast.Load())
                         loc = {n.id for s in body for n in ast.walk(s) if isinstance(n, ast.Name)
                                and isinstance(n.ctx, ast.Store)} - set(names)
                         # `a, b = self.h(..)` with `return x, y` at the end: the helper's x, y ARE a, b
@@ -346,18 +453,35 @@ def inline_new_helpers(tree, module_name, functions_of_class):
                         if tgt not in (None, "return", "forward", "yield") and len(rets_) == 1 and rets_[0].value is not None:
                             tv, rv = (tgt.elts if isinstance(tgt, ast.Tuple) else [tgt]), \
                                 (rets_[0].value.elts if isinstance(rets_[0].value, ast.Tuple) else [rets_[0].value])
+                            # (a returned element may also be a parameter the helper re-binds, when the
+                            # caller passes and receives it under one name: `v = h(v)`)
+                            def _same_var(r_, t_):
+                                a_ = mapping.get(r_.id)
+                                return isinstance(a_, ast.Name) and a_.id == t_.id
                             if len(tv) == len(rv) and all(isinstance(x, ast.Name) for x in list(tv) + list(rv)) \
-                                    and len({x.id for x in rv}) == len(rv) and all(x.id in loc for x in rv):
+                                    and len({x.id for x in rv}) == len(rv) \
+                                    and all(x.id in loc or _same_var(x, t_) for x, t_ in zip(rv, tv)):
                                 cand = {r.id: t_.id for r, t_ in zip(rv, tv)}
                                 used_here = {n.id for s in body for n in ast.walk(s) if isinstance(n, ast.Name)}
+                                argnames = {getattr(a_, "id", None): nm_ for nm_, a_ in mapping.items()}
                                 if not any(t_ in used_here and t_ != r for r, t_ in cand.items()) \
-                                        and not any(t_ in {norm_id for norm_id in (getattr(a_, "id", None) for a_ in call.args)}
-                                                    for t_ in cand.values()):
+                                        and not any(t_ in argnames and argnames[t_] != r for r, t_ in cand.items()):
                                     keepname = cand
-                        if any(isinstance(n, ast.Name) and isinstance(n.ctx, ast.Store) and n.id in mapping
-                               for s in body for n in ast.walk(s)):
-                            i += 1
-                            continue        # the helper re-binds a parameter: leave the call alone
+                                    for r in cand:
+                                        mapping.pop(r, None)     # a re-bound parameter now is the caller's variable
+                        # a parameter the helper re-binds becomes a local of the caller: the caller's own
+                        # variable when the call reads and overwrites the same name (`x = self.h(x)`),
+                        # otherwise a fresh one initialised from the argument
+                        rebound = {n.id for s in body for n in ast.walk(s) if isinstance(n, ast.Name)
+                                   and isinstance(n.ctx, ast.Store) and n.id in mapping}
+                        prologue = []
+                        for p_ in sorted(rebound):
+                            a_ = mapping.pop(p_)
+                            if isinstance(a_, ast.Name) and isinstance(tgt, ast.Name) and tgt.id == a_.id:
+                                keepname[p_] = a_.id
+                            else:
+                                keepname[p_] = pre + p_
+                                prologue.append(ast.Assign(targets=[ast.Name(id=pre + p_, ctx=ast.Store())], value=a_))
 
                         class R(ast.NodeTransformer):
                             def visit_Name(self, node):
@@ -368,7 +492,7 @@ def inline_new_helpers(tree, module_name, functions_of_class):
                                 elif node.id in loc and node.id in used:
                                     node.id = pre + node.id     # only names the caller already uses are renamed
                                 return node
-                        body = [R().visit(s) for s in body]
+                        body = early + prologue + [R().visit(s) for s in body]
 
                         def emit(value):
                             if tgt == "return":
@@ -393,13 +517,23 @@ def inline_new_helpers(tree, module_name, functions_of_class):
                             return [ast.Assign(targets=[copy.deepcopy(tgt)],
                                                value=value if value is not None else ast.Constant(value=None))]
                         new = _thread_returns(body, emit)
-                        if tgt not in (None, "return", "forward", "yield") and not _always_leaves(body):
+                        if tgt not in (None, "return", "forward", "yield") and not consume_mode and not _always_leaves(body):
                             # falling off the end returns None
                             if not any(isinstance(s, ast.Return) for s in body):
                                 new.append(ast.Assign(targets=[copy.deepcopy(tgt)], value=ast.Constant(value=None)))
-                        new = [s_ for s_ in new if not (isinstance(s_, ast.Assign) and len(s_.targets) == 1
-                                                       and isinstance(s_.targets[0], ast.Name) and isinstance(s_.value, ast.Name)
-                                                       and s_.targets[0].id == s_.value.id)]
+                        def _drop_identity(stmts_):
+                            out_ = []
+                            for s_ in stmts_:
+                                if isinstance(s_, ast.Assign) and len(s_.targets) == 1 \
+                                        and isinstance(s_.targets[0], ast.Name) and isinstance(s_.value, ast.Name) \
+                                        and s_.targets[0].id == s_.value.id:
+                                    continue
+                                if isinstance(s_, ast.If):
+                                    s_.body = _drop_identity(s_.body) or [ast.copy_location(ast.Pass(), s_)]
+                                    s_.orelse = _drop_identity(s_.orelse)
+                                out_.append(s_)
+                            return out_
+                        new = _drop_identity(new)
                         new = new or [ast.Pass()]
                         for s_ in new:
                             for n in ast.walk(s_):
@@ -525,6 +659,10 @@ def new_module_constants(tree, module_name, base):
                 continue
             if _pure(st.value, {}, {}, set()):
                 consts[nm] = st.value
+            elif isinstance(st.value, ast.Dict) and all(
+                    k is not None and _pure(k, {}, {}, set()) and _pure(v, {}, {}, set())
+                    for k, v in zip(st.value.keys, st.value.values)):
+                consts[nm] = st.value        # a literal table
     if not consts:
         return 0
     sub = _Subst(consts)
